@@ -3520,6 +3520,34 @@ def c05_distinct_step(env, ob):
     return _gate_step(env, ob, "runtime/ops/distinct.rs", r"HashSet::<.*>::insert$", "the_first_occurrence_test")
 
 
+@obligation(id="C05.dml_counts_every_addressed_row", funcs="Update::update_row",
+            bounds="every path of Update::update_row; callees uninterpreted",
+            native="c05_affected_row_counts")
+def c05_dml_counts(env, ob):
+    """UPDATE / DELETE report the number of rows the statement addressed (SQL: rows matching WHERE), which is what the
+    DML executor's own verdict says.  The per-row routine must hand every row to the DML executor and report ITS verdict -
+    not skip rows it considers unchanged."""
+    agg = None
+    for rel, fn, callee_rx in (("runtime/ops/update.rs", "update_row", r"DmlExecutor::update$"),):
+        try:
+            ctx, f, args, res = explore(env, rel, fn, loop_bound=1)
+        except Unsupported as e:
+            agg = merge(agg, result(ob, "inconclusive", reason=f"{fn}: {str(e)[:120]}"))
+            continue
+
+        def bad(path, rv, fn=fn, callee_rx=callee_rx):
+            if path.panics or rv is None or not isinstance(rv, Agg):
+                return None
+            if not idx(path, callee_rx):
+                return (f"row_not_handed_to_the_dml_executor@{fn}", ret_is_ok(rv))
+            return None
+        if not any(idx(p, callee_rx) for p, rv in res):
+            agg = merge(agg, result(ob, "inconclusive", reason=f"vacuity: {fn} never calls the DML executor", paths=len(res)))
+            continue
+        agg = merge(agg, trace_obligation(env, ob, ctx, res, bad, f"{fn} answers for a row without asking the DML executor", cuts_ok=True))
+    return agg
+
+
 @obligation(id="C05.order_by_is_lexicographic", funcs="QuickSort::compare_keys",
             bounds="every path of the sort comparator through <= 2 sort keys (loop unrolled twice); value comparison abstract",
             native="c05_order_by_ties_and_nulls")
